@@ -1,7 +1,7 @@
 //! shrun — the real KnowledgeBase / ParallelRuleEngine compiled against shuttle's sync and
 //! thread primitives (cfg rre_verif_shuttle) and run under shuttle's seeded schedulers.
 //!
-//!   shrun check C15|C19 [--tier quick|thorough] [--seed N] [--workloads N] [--schedules N] [--evidence FILE]
+//!   shrun check C15|C19|C14 [--tier quick|thorough] [--seed N] [--workloads N] [--schedules N] [--evidence FILE]
 //!   shrun --replay FILE [--confirm]
 //!
 //! Exit 0: held on everything explored; 1: `VIOLATION property=<id> replay=<path>` printed; 2: harness error.
@@ -9,6 +9,7 @@
 #[path = "../../sim/src/core/rng.rs"]
 mod rng;
 
+mod jm;
 mod kb;
 mod par;
 
@@ -57,6 +58,7 @@ pub fn count(slot: &Shared, k: &str) {
 pub enum Workload {
     Kb(kb::KbWorkload),
     Par(par::ParWorkload),
+    Jm(jm::JmWorkload),
 }
 
 fn scenario(w: &Workload, slot: &Shared) -> impl Fn() + Send + Sync + 'static {
@@ -65,6 +67,7 @@ fn scenario(w: &Workload, slot: &Shared) -> impl Fn() + Send + Sync + 'static {
     move || match &w {
         Workload::Kb(k) => kb::scenario(k, &slot),
         Workload::Par(p) => par::scenario(p, &slot),
+        Workload::Jm(j) => jm::scenario(j, &slot),
     }
 }
 
@@ -196,6 +199,7 @@ fn explore_here(prop: &str, w: &Workload, sched: Sched, sched_seed: u64, iters: 
             let (site, returns) = match w {
                 Workload::Kb(_) => ("KnowledgeBase", "kb"),
                 Workload::Par(_) => ("ParallelRuleEngine::execute_parallel", "par"),
+                Workload::Jm(_) => ("StreamJoinManager::process_event (concurrent callers)", "join"),
             };
             if msg.contains("deadlock") {
                 Violation { property: prop.into(), clause: format!("{returns}.no-deadlock"), site: site.into(), signature: "deadlock".into(), message: format!("shuttle detected a deadlock: {msg}") }
@@ -248,6 +252,11 @@ fn replay_one(w: &Workload, schedule: &str) -> Option<Violation> {
         Ok(()) => None,
         Err(p) => {
             let msg = panic_message(&p);
+            if slot.lock().unwrap().violation.is_none() && msg.contains("scheduled task is not runnable") {
+                // the recorded schedule does not fit this code (it was recorded against another tree): the
+                // scheduler cannot follow it — nothing was reproduced, and nothing is claimed
+                return None;
+            }
             Some(slot.lock().unwrap().violation.clone().unwrap_or(Violation {
                 property: String::new(),
                 clause: if msg.contains("deadlock") { "no-deadlock".into() } else { "no-panic".into() },
@@ -262,6 +271,7 @@ fn replay_one(w: &Workload, schedule: &str) -> Option<Violation> {
 fn generate(prop: &str, tier_thorough: bool, rng: &mut Rng) -> Workload {
     match prop {
         "C15" => Workload::Kb(kb::generate(rng, tier_thorough)),
+        "C14" => Workload::Jm(jm::generate(rng, tier_thorough)),
         _ => Workload::Par(par::generate(rng, tier_thorough)),
     }
 }
@@ -270,6 +280,7 @@ fn shrink(w: &Workload) -> Vec<Workload> {
     match w {
         Workload::Kb(k) => kb::shrink(k).into_iter().map(Workload::Kb).collect(),
         Workload::Par(p) => par::shrink(p).into_iter().map(Workload::Par).collect(),
+        Workload::Jm(j) => jm::shrink(j).into_iter().map(Workload::Jm).collect(),
     }
 }
 
@@ -349,20 +360,28 @@ fn real_main(args: &[String], report: &Report) -> i32 {
     }
 
     if pos.first().map(|s| s.as_str()) != Some("check") || pos.len() < 2 {
-        report.line("usage: shrun check C15|C19 [--tier quick|thorough] | shrun --replay FILE");
+        report.line("usage: shrun check C15|C19|C14 [--tier quick|thorough] | shrun --replay FILE");
         return 2;
     }
     let prop = pos[1].clone();
-    let world = if prop == "C15" { "kb" } else { "par" };
+    let world = match prop.as_str() {
+        "C15" => "kb",
+        "C14" => "jm",
+        _ => "par",
+    };
     let n_workloads = workloads.unwrap_or(match (prop.as_str(), thorough) {
         ("C15", false) => 40_000,
         ("C15", true) => 400_000,
+        ("C14", false) => 20_000,
+        ("C14", true) => 300_000,
         (_, false) => 15_000,
         (_, true) => 200_000,
     });
     let n_sched = schedules.unwrap_or(match (prop.as_str(), thorough) {
         ("C15", false) => 60,
         ("C15", true) => 200,
+        ("C14", false) => 40,
+        ("C14", true) => 100,
         (_, false) => 30,
         (_, true) => 100,
     });
@@ -511,7 +530,11 @@ fn real_main(args: &[String], report: &Report) -> i32 {
     let _ = std::fs::remove_dir_all(&scratch);
     let ev_path = evidence.unwrap_or_else(|| format!("{root}/evidence/{prop}.json"));
     let per_hour = if wall > 0.0 { (total_sched as f64 / wall * 3600.0) as u64 } else { 0 };
-    let (rule, real, stub, assumptions): (&str, Vec<&str>, Vec<&str>, Vec<&str>) = if prop == "C15" { kb::describe() } else { par::describe() };
+    let (rule, real, stub, assumptions): (&str, Vec<&str>, Vec<&str>, Vec<&str>) = match prop.as_str() {
+        "C15" => kb::describe(),
+        "C14" => jm::describe(),
+        _ => par::describe(),
+    };
     let ev = json!({
         "property_id": prop,
         "tier": tier,
